@@ -9,6 +9,9 @@ Proof.
   rewrite map_nth. f_equal. apply seq_nth. exact H.
 Qed.
 
+Lemma nth_map' {A B} (f : A -> B) l i d d0 : i < length l -> nth i (map f l) d = f (nth i l d0).
+Proof. revert i; induction l as [|x l IH]; simpl; intros [|i] H; try lia; auto. apply IH; lia. Qed.
+
 Lemma nth_ident_src j n i : i < n -> nth i (ident_src j n) [] = [(j, i)].
 Proof. intros H. unfold ident_src. rewrite nth_map_seq by exact H. reflexivity. Qed.
 
